@@ -78,6 +78,7 @@ class Features:
     follow_links: int = 0  # follow object-valued methods up to this many steps (C10)
     bare_columns: bool = True  # a vector-valued method as it is as a column / as the sequence of a First-of-sequences
     flat_aggregates: bool = True  # aggregates / First over a sequence flattened by an inner SelectMany
+    focus: Tuple[str, ...] = ()  # rare productions a focused batch takes whenever they are possible ("flat3", "mix")
     math_names: Tuple[str, ...] = (
         "sin", "cos", "tanh", "atan", "exp2small", "sqrtabs", "log1pabs", "atan2", "hypot", "fabs", "abs", "cbrt", "erf", "fmax", "fmin",
         "copysign", "fdim", "ceil",
@@ -422,7 +423,7 @@ class QGen:
             if ms:
                 m = self.pick(ms)
                 two = [x for x in ms if x.kind == "echo" and x.echo == "mix"]
-                if two and not self._in_arg and self.chance(1, 3):
+                if two and not self._in_arg and (self.chance(1, 3) or "mix" in self.f.focus):
                     m = two[0]
                 if m.kind == "num":
                     if m.member:
@@ -675,6 +676,8 @@ class QGen:
         if f.seq2d and not self.noflat:
             opts.append((2, "seqseq"))
         k = self.weighted(opts)
+        if flat3 and "flat3" in f.focus:
+            k = "flat3"
         if k == "flat3":
             # an aggregate / First over a sequence flattened over THREE loops (a SelectMany of a SelectMany, chained or nested)
             c, ov, m = self.pick(flat3)
